@@ -17,7 +17,9 @@ pub enum S {
     Let(u8),
     Assign(u8),
     Print(u8),
-    /// 0 ra() 1 wa() 2 sa() 3 o.ra() 4 o.wa() 5 o.sa(): read / assign / shadow `a` in a callee
+    /// 0 ra() 1 wa() 2 sa() 3 o.ra() 4 o.wa() 5 o.sa(): read / assign / shadow `a` in a callee;
+    /// 6 7 8: the same through a method of an object literal written AT THE CALL SITE (inside
+    /// the caller's block), 9: such a method reading `b`
     Call(u8),
     Block(Vec<S>),
     If(bool, Box<S>, Option<Box<S>>),
@@ -36,7 +38,7 @@ pub const CONTEXTS: [Ctx4; 4] = [Ctx4::Top, Ctx4::TopBlock, Ctx4::Function, Ctx4
 
 fn leaves() -> Vec<S> {
     let mut v = vec![S::Let(0), S::Let(1), S::Assign(0), S::Assign(1), S::Print(0), S::Print(1)];
-    for k in 0..6 {
+    for k in 0..10 {
         v.push(S::Call(k));
     }
     v
@@ -230,6 +232,12 @@ impl Analysis {
                 if caller_defines {
                     self.callee_overlap = true;
                 }
+                if *k == 9 {
+                    if self.visible(1).is_some() || self.globals.contains_key(&1) {
+                        self.callee_overlap = true;
+                    }
+                    return self.use_global(1);
+                }
                 match k % 3 {
                     2 => true, // the callee shadows `a` with its own local: needs nothing
                     _ => self.use_global(0),
@@ -338,8 +346,17 @@ impl ToIr {
                 let names = ["ra", "wa", "sa"];
                 if *k < 3 {
                     call(names[*k as usize], vec![])
-                } else {
+                } else if *k < 6 {
                     mcall(var("o"), names[*k as usize - 3], vec![])
+                } else {
+                    // an object literal with one method, created and called right here
+                    let body = match *k {
+                        6 => print("i.ra=~\\n", vec![var("a")]),
+                        7 => assign("a", E::Int(902)),
+                        8 => E::Block(vec![let_("a", E::Int(903)), print("i.sa=~\\n", vec![var("a")])]),
+                        _ => print("i.rb=~\\n", vec![var("b")]),
+                    };
+                    mcall(E::Object(None, vec![Member::Method("im".into(), vec![], body)]), "im", vec![])
                 }
             }
             S::Block(body) => {
@@ -435,7 +452,7 @@ impl Property for C12 {
         true
     }
     fn rule(&self) -> String {
-        "cases: (bounded-exhaustive) every statement tree over {let a, let b, a <- k, b <- k, print a, print b, begin..end, if true/false then .. [else ..], while once do .., calls of a function / method that reads, assigns or shadows a} with at most N nodes and nesting <= D (quick N=4 D=2, thorough N=5 D=3), in four contexts (top level, top-level block, function body, method body); every let/<- writes a distinct constant; programs outside the fragment (a use not dominated by its definition, same-scope redefinition, a global that exists only later) are filtered by a static analysis and counted; (random) larger programs from the typed generator with the scope-heavy profile (no arithmetic, arrays or objects). oracle: reference semantics (output and the failure of out-of-scope uses). non-trivial: contains a shadowing, or a use after leaving the scope of a same-named inner variable, or a callee touching a name the caller also defines; distinct by source".into()
+        "cases: (bounded-exhaustive) every statement tree over {let a, let b, a <- k, b <- k, print a, print b, begin..end, if true/false then .. [else ..], while once do .., calls of a function / method / method of an object literal written at the call site that reads, assigns or shadows a (or reads b)} with at most N nodes and nesting <= D (quick N=4 D=2, thorough N=5 D=3), in four contexts (top level, top-level block, function body, method body); every let/<- writes a distinct constant; programs outside the fragment (a use not dominated by its definition, same-scope redefinition, a global that exists only later) are filtered by a static analysis and counted; (random) larger programs from the typed generator with the scope-heavy profile (no arithmetic, arrays or objects). oracle: reference semantics (output and the failure of out-of-scope uses). non-trivial: contains a shadowing, or a use after leaving the scope of a same-named inner variable, or a callee touching a name the caller also defines; distinct by source".into()
     }
     fn assumptions(&self) -> Vec<String> {
         vec![
